@@ -164,6 +164,66 @@ pub fn walk(nodes: &BTreeMap<String, Node>, cwd: &str, path: &Path) -> Result<St
     }
 }
 
+/// Apply a state-changing fault (`Remove` / `Put`) to a node map. Returns the kind if it had an
+/// effect. Shared by the simulator and by the model (which reconstructs the tree as it was at a
+/// given seam call).
+pub fn apply_state_fault(nodes: &mut BTreeMap<String, Node>, f: &Fault) -> Option<&'static str> {
+    match f {
+        Fault::Remove { path, .. } => {
+            let prefix = format!("{}/", path.trim_end_matches('/'));
+            let keys: Vec<String> = nodes
+                .keys()
+                .filter(|k| **k == *path || k.starts_with(&prefix))
+                .cloned()
+                .collect();
+            if !keys.is_empty() && path != "/" {
+                for k in keys {
+                    nodes.remove(&k);
+                }
+                return Some("remove");
+            }
+            None
+        }
+        Fault::Put { path, bytes, .. } => {
+            // parents are created on demand; a directory of that name is replaced
+            let mut cur = String::new();
+            let parts: Vec<&str> = path.split('/').filter(|p| !p.is_empty()).collect();
+            for part in &parts[..parts.len().saturating_sub(1)] {
+                cur.push('/');
+                cur.push_str(part);
+                nodes.entry(cur.clone()).or_insert(Node::Dir);
+            }
+            let prefix = format!("{}/", path);
+            let below: Vec<String> = nodes.keys().filter(|k| k.starts_with(&prefix)).cloned().collect();
+            for k in below {
+                nodes.remove(&k);
+            }
+            nodes.insert(path.clone(), Node::File(bytes.clone()));
+            Some("put")
+        }
+        _ => None,
+    }
+}
+
+/// The node map as it is when seam call `seq` is served (faults scheduled at `<= seq` applied).
+pub fn nodes_at(w: &World, seq: usize) -> BTreeMap<String, Node> {
+    let mut nodes = w.nodes.clone();
+    let mut state_faults: Vec<(usize, usize)> = w
+        .faults
+        .iter()
+        .enumerate()
+        .filter_map(|(i, f)| match f {
+            Fault::Remove { at, .. } | Fault::Put { at, .. } if *at <= seq => Some((*at, i)),
+            _ => None,
+        })
+        .collect();
+    state_faults.sort();
+    for (_, i) in state_faults {
+        apply_state_fault(&mut nodes, &w.faults[i]);
+    }
+    nodes
+}
+
 impl SimState {
     pub fn from_world(w: &World) -> SimState {
         SimState {
@@ -195,41 +255,8 @@ impl SimState {
             .cloned()
             .collect();
         for f in due {
-            match f {
-                Fault::Remove { path, .. } => {
-                    let prefix = format!("{}/", path.trim_end_matches('/'));
-                    let keys: Vec<String> = self
-                        .nodes
-                        .keys()
-                        .filter(|k| **k == path || k.starts_with(&prefix))
-                        .cloned()
-                        .collect();
-                    if !keys.is_empty() && path != "/" {
-                        for k in keys {
-                            self.nodes.remove(&k);
-                        }
-                        fired.push("remove");
-                    }
-                }
-                Fault::Put { path, bytes, .. } => {
-                    // parents are created on demand; a directory of that name is replaced
-                    let mut cur = String::new();
-                    let parts: Vec<&str> = path.split('/').filter(|p| !p.is_empty()).collect();
-                    for part in &parts[..parts.len().saturating_sub(1)] {
-                        cur.push('/');
-                        cur.push_str(part);
-                        self.nodes.entry(cur.clone()).or_insert(Node::Dir);
-                    }
-                    let prefix = format!("{}/", path);
-                    let below: Vec<String> =
-                        self.nodes.keys().filter(|k| k.starts_with(&prefix)).cloned().collect();
-                    for k in below {
-                        self.nodes.remove(&k);
-                    }
-                    self.nodes.insert(path, Node::File(bytes));
-                    fired.push("put");
-                }
-                _ => {}
+            if let Some(k) = apply_state_fault(&mut self.nodes, &f) {
+                fired.push(k);
             }
         }
         (seq, fired)
